@@ -1802,6 +1802,11 @@ mod crypto {
                                 assert!(sizebuf_bytes_read <= 8);
                             }
                         }
+                        Err(err) if err.kind() == ErrorKind::Interrupted => {
+                            // Must retry here: returning would lose the part of the
+                            // chunk length that has already been read.
+                            continue;
+                        }
                         Err(err) => return Err(err),
                     }
                     if sizebuf_bytes_read == 8 {
